@@ -7,6 +7,10 @@ def concurrent_part(ctx):
     n = 10 if ctx.quick else 80
     jobs = [{"seed": ctx.seed * 1000 + i, "tag": "c20", "writers": 3 + i % 3, "readers": 1, "n": 150 if ctx.quick else 400}
             for i in range(n)]
+    # a value returned by Get is a private copy also while the buffer it came from is frozen, flushed and recycled:
+    # large values, write buffers of four values, several readers
+    jobs += [{"seed": ctx.seed * 1000 + 500 + i, "tag": "c20huge", "writers": 2, "readers": 4, "n": 60 if ctx.quick else 150,
+              "huge": [256, 512, 1024][i % 3], "nkeys": 4} for i in range(6 if ctx.quick else 36)]
     judge(ctx, conc_runs(ctx, jobs), "C20", cfg="ConcTraceLin.cfg")
 
 
